@@ -7,6 +7,7 @@ import HotstuffModel.Driver.QuorumWaiter
 import HotstuffModel.Driver.ReliableSender
 import HotstuffModel.Driver.BatchMaker
 import HotstuffModel.Driver.MempoolSync
+import HotstuffModel.Driver.Synchronizer
 import HotstuffModel.Model.Committee
 /-
 Model driver: one request per line on stdin (an s-expression), one answer line on stdout.
@@ -36,6 +37,7 @@ structure DState where
   rs : RSState := {}
   bm : BMState := {}
   ms : MSState := {}
+  sy : SYState := {}
 
 def dispatch (st : DState) (e : Sexp) : DState × Sexp :=
   match handlePure e with
@@ -58,6 +60,9 @@ def dispatch (st : DState) (e : Sexp) : DState × Sexp :=
   | none =>
   match stepMS st.ms e with
   | some (s', r) => ({ st with ms := s' }, r)
+  | none =>
+  match stepSY st.sy e with
+  | some (s', r) => ({ st with sy := s' }, r)
   | none =>
   match handleUnit e with
   | some r => (st, r)
